@@ -1343,6 +1343,66 @@ XSLTEngineImpl::addResultAttribute(
 
         if (fExcludeAttribute == false)
         {
+            const XalanDOMString::size_type     theColonIndex =
+                indexOf(aname, XalanUnicode::charColon);
+
+            // Adding an attribute replaces any existing attribute with
+            // the same expanded name (XSLT 1.0, section 7.1.3).  The list
+            // is keyed by the qualified name, so an attribute with another
+            // prefix that is bound to the same namespace has to be looked
+            // for...
+            if (theColonIndex < aname.length() &&
+                attList.getLength() != 0 &&
+                startsWith(aname, DOMServices::s_XMLNamespaceWithSeparator) == false)
+            {
+                assert(m_executionContext != 0);
+
+                const ECGetCachedString     prefixGuard(*m_executionContext);
+
+                XalanDOMString&     prefix = prefixGuard.get();
+
+                substring(aname, prefix, 0, theColonIndex);
+
+                const XalanDOMString* const     theNamespace =
+                    getResultNamespaceForPrefix(prefix);
+
+                if (theNamespace != 0)
+                {
+                    const XalanDOMChar* const   theLocalPart =
+                        aname.c_str() + theColonIndex + 1;
+
+                    const XalanSize_t   theCount = attList.getLength();
+
+                    for (XalanSize_t i = 0; i < theCount; ++i)
+                    {
+                        const XalanDOMChar* const   theName = attList.getName(i);
+                        assert(theName != 0);
+
+                        const XalanDOMString::size_type     theIndex =
+                            indexOf(theName, XalanUnicode::charColon);
+
+                        if (theIndex < length(theName) &&
+                            equals(theName + theIndex + 1, theLocalPart) == true &&
+                            equals(theName, aname.c_str()) == false &&
+                            startsWith(theName, DOMServices::s_XMLNamespaceWithSeparator.c_str()) == false)
+                        {
+                            prefix.assign(theName, theIndex);
+
+                            const XalanDOMString* const     theOtherNamespace =
+                                getResultNamespaceForPrefix(prefix);
+
+                            if (theOtherNamespace != 0 &&
+                                equals(*theOtherNamespace, *theNamespace) == true)
+                            {
+                                attList.removeAttribute(theName);
+
+                                break;
+                            }
+                        }
+                    }
+                }
+            }
+
             attList.addAttribute(
                 aname.c_str(),
                 Constants::ATTRTYPE_CDATA.c_str(),
